@@ -21,7 +21,7 @@
 #include "kv.h"
 #include "layout.h"
 
-#define MAXDEPTH 20
+#define MAXDEPTH 12
 #define MAXALPHA 128
 
 static kcfg_t cfg;
@@ -43,6 +43,14 @@ static int default_universe;
 static vh_set_t seen, layout_seen, cursor_seen;
 
 typedef struct hist_s { unsigned char n; kop_t ops[MAXDEPTH]; } hist_t;
+
+/* the (possibly long) prefix history shared by every state of the current plan item; a state's
+ * hist_t holds only the operations explored after it */
+#define MAXPFX 400
+static kop_t pfx[MAXPFX];
+static int npfx;
+#define NOPS(h) (npfx + (h)->n)
+#define OPAT(h, i) ((i) < npfx ? &pfx[(i)] : &(h)->ops[(i) - npfx])
 
 /* result of one execution */
 typedef struct exec_s {
@@ -374,9 +382,9 @@ body(void *arg) {
     kh_clear(&h);
     return;
   }
-  for (i = 0; i < x->h->n && x->ok; i++) {
-    const kop_t *op = &x->h->ops[i];
-    int last = (i == x->h->n - 1);
+  for (i = 0; i < NOPS(x->h) && x->ok; i++) {
+    const kop_t *op = OPAT(x->h, i);
+    int last = (i == NOPS(x->h) - 1);
     int was_iters = h.niters;
     if (o_files && op->kind == OP_CRANGE) {
       int lv[64];
@@ -540,6 +548,8 @@ report(const exec_t *x) {
     vh_die("violation did not reproduce on replay: %s", x->err);
   vb_init(&b);
   vb_init(&r);
+  khist_print(pfx, npfx, &b);
+  if (npfx && x->h->n) vb_printf(&b, " ");
   khist_print(x->h->ops, x->h->n, &b);
   kcfg_print(&cfg, cfgtxt, sizeof(cfgtxt));
   vb_printf(&r, "{\"history\":");
@@ -563,6 +573,8 @@ announce(const hist_t *h) {
   vh_buf_t b;
   char cfgtxt[300];
   vb_init(&b);
+  khist_print(pfx, npfx, &b);
+  if (npfx && h->n) vb_printf(&b, " ");
   khist_print(h->ops, h->n, &b);
   kcfg_print(&cfg, cfgtxt, sizeof(cfgtxt));
   drv_case("{\"history\":\"%s\",\"cfg\":\"%s\"}", b.p ? b.p : "", cfgtxt);
@@ -591,7 +603,6 @@ fr_push(frontier_t *f, const hist_t *h, int nsnaps, int niters) {
 
 static int stop_now;
 
-static hist_t root_prefix;
 
 static void
 explore(int depth, int dedup) {
@@ -601,7 +612,7 @@ explore(int depth, int dedup) {
   size_t i;
   int a;
   uint64_t execs_counted_from = 0;
-  root = root_prefix;
+  memset(&root, 0, sizeof(root));
   {
     /* the prefix state itself (also yields its snapshot/iterator counts) */
     exec_t x;
@@ -615,14 +626,13 @@ explore(int depth, int dedup) {
     }
     fr_push(&cur, &root, x.nsnaps, x.niters);
   }
-  depth += root.n;
   vs_free(&seen);
   vs_init(&seen);
-  for (level = 1 + root.n; level <= depth && !stop_now; level++) {
+  for (level = 1; level <= depth && !stop_now; level++) {
     /* level 1 is computed identically by every shard (cheap, counted by shard 0 only);
      * the (level-1 state, op) pairs of level 2 are dealt round-robin to the shards and
      * each shard continues with the subtrees of its own pairs */
-    int rel = level - root.n;
+    int rel = level;
     int shared = (rel <= 1);
     uint64_t pair = 0;
     next.n = 0;
@@ -678,8 +688,8 @@ explore(int depth, int dedup) {
     }
     if (stop_now)
       break;
-    if (dedup) { if (level - root.n > max_depth_done) max_depth_done = level - root.n; }
-    else { if (level - root.n > max_ndepth_done) max_ndepth_done = level - root.n; }
+    if (dedup) { if (level > max_depth_done) max_depth_done = level; }
+    else { if (level > max_ndepth_done) max_ndepth_done = level; }
     /* hand over: after level 2 keep only this shard's share */
     cur.n = 0;
     for (i = 0; i < next.n; i++)
@@ -727,7 +737,7 @@ main(int argc, char **argv) {
     hist_t h;
     exec_t x;
     const char *p = strstr(drv.replay, "\"history\":\"");
-    char hb[1024];
+    static char hb[8192];
     int n;
     memset(&h, 0, sizeof(h));
     if (p) {
@@ -752,10 +762,11 @@ main(int argc, char **argv) {
     } else {
       snprintf(hb, sizeof(hb), "%s", drv.replay);
     }
-    n = khist_parse(h.ops, MAXDEPTH, hb);
+    n = khist_parse(pfx, MAXPFX, hb);
     if (n < 0)
       vh_die("bad history in replay: %s", hb);
-    h.n = (unsigned char)n;
+    npfx = n;
+    h.n = 0;
     run_exec(&x, &h, 1);
     if (!x.ok)
       report(&x);
@@ -779,13 +790,13 @@ main(int argc, char **argv) {
         char *at = strchr(item, '@'), *hat = strchr(item, '^'), *tilde;
         const char *item_alph = alph;
         int d = depth, nd = 0, n;
-        memset(&root_prefix, 0, sizeof(root_prefix));
+        npfx = 0;
         if (hat) {
           *hat = 0;
-          n = khist_parse(root_prefix.ops, MAXDEPTH - 4, hat + 1);
+          n = khist_parse(pfx, MAXPFX, hat + 1);
           if (n < 0)
             vh_die("bad prefix in plan: %s", hat + 1);
-          root_prefix.n = (unsigned char)n;
+          npfx = n;
         }
         if (at) {
           *at = 0;
@@ -800,14 +811,14 @@ main(int argc, char **argv) {
         }
         if (!kcfg_parse(&cfg, item))
           vh_die("bad cfg in plan: %s", item);
-        if (d + root_prefix.n > MAXDEPTH || nd + root_prefix.n > MAXDEPTH)
+        if (d > MAXDEPTH || nd > MAXDEPTH)
           vh_die("plan depth too large");
         kv_set_universe(cfg.universe >= 0 ? cfg.universe : default_universe);
         build_targets();
         build_alphabet(item_alph);
         vs_free(&cursor_seen);
         vs_init(&cursor_seen);
-        drv_note("plan item cfg=%s depth=%d nodedup_depth=%d prefix_len=%d", item, d, nd, root_prefix.n);
+        drv_note("plan item cfg=%s depth=%d nodedup_depth=%d prefix_len=%d", item, d, nd, npfx);
         if (nd > 0)
           explore(nd, 0);
         if (d > 0 && !stop_now)
